@@ -263,7 +263,7 @@ PROPS = {
                 "or the new state; the image holding all writes of an acknowledged commit must show the new state), reopened through the public API "
                 "(same contents, DB::check), and every 8th takes one more commit. distinct/non-trivial = distinct image bytes.",
         "run": generic(thorough_profiles=(), env=SHIM_ENV, pre=lambda ctx: (build_shim(ctx), unpack_golden(ctx)), extra_sets=("golden=" + os.path.join(ROOT, "out", "golden"),)),
-        "floors": {"any": {"workloads_with_a_reader_open_at_every_writer_begin_and_closed_before_its_commit": 4, "commits_analysed": 20, "workloads_on_files_written_by_the_pinned_release": 3, "workloads_recorded_with_direct_writes": 4, "crash_images_tested(distinct bytes)": 2000, "images_showing_previous_state": 200,
+        "floors": {"any": {"recordings_whose_writes_reproduce_the_real_file_byte_for_byte": 20, "workloads_with_a_reader_open_at_every_writer_begin_and_closed_before_its_commit": 4, "commits_analysed": 20, "workloads_on_files_written_by_the_pinned_release": 3, "workloads_recorded_with_direct_writes": 4, "crash_images_tested(distinct bytes)": 2000, "images_showing_previous_state": 200,
                            "images_showing_new_state": 50, "header_word_torn_images_generated": 500, "sync_events_recorded": 20, "directed_workloads": 6,
                            "commits_that_extended_the_file": 4, "commits_with_a_multi_page_free_list": 2}},
         "assumptions": ["file size metadata is durable at the point it was observed", "a sync makes every earlier write durable; writes are torn at 512-byte sectors, the header record at 8-byte words",
